@@ -33,14 +33,26 @@ class BadType:
     """Not a type: encoding it raises (unserialisable trace)."""
 
 
+_FUNCS = {}
+
+
+def fn(module, qualname):
+    """One function object per (module, qualname), as in a traced program: the good and the unserialisable
+    traces of one function share it."""
+    key = (module, qualname)
+    if key not in _FUNCS:
+        _FUNCS[key] = F(module, qualname)
+    return _FUNCS[key]
+
+
 def mk_trace(module, qualname, payload=0, bad=False):
     from monkeytype.tracing import CallTrace
 
     if bad:
-        return CallTrace(F(module, qualname), {"x": BadType()}, None, None)
+        return CallTrace(fn(module, qualname), {"x": BadType()}, None, None)
     arg_types = {f"p{payload}": int}
     ret = [None, int, type(None)][payload % 3]
-    return CallTrace(F(module, qualname), arg_types, ret, None)
+    return CallTrace(fn(module, qualname), arg_types, ret, None)
 
 
 def expected_row(module, qualname, payload):
